@@ -187,6 +187,8 @@ type Machine struct {
 	access       map[raceKey]*accessRec
 	raceDetect    bool
 	noAdvanceNext bool
+	sleepTokens   int
+	yeastN        int
 	rtypes        map[string]*Opaque
 }
 
